@@ -198,6 +198,7 @@ def nested_cases(c02, tier, seed, bases, per_class):
             rr = core.rng(seed, "C02F", cls, k)
             m = f(rr, copy.deepcopy(base), rr.choice(ss))
             if m is not None:
+                m.pop("_tags", None)
                 designs.append(m); metas.append(dict(cls=cls, kind="mutant-of-nested"))
         for cls, f in NESTED_MUTATORS.items():
             for j in range(2 if quick else 3):
